@@ -15,6 +15,7 @@ RULES = {
     "C04.R3": "density: the packed allocation has ceil(R / (8/bits)) rows, dtype uint8, and is the object returned",
     "C04.R4": "PackedTensor.pack records t.size(), t.stride(); unpack slices to self.shape[0]",
     "C04.R5": "dispatch: every path of PackedTensor.__torch_dispatch__ re-wraps op(t._data, ...) with unchanged bits/size/stride (detach, _to_copy/to with the dtype refusal) or maps unpack over args and kwargs before calling op",
+    "C04.R7": "packing and unpacking are functions of their arguments: neither the packer nor the python unpack fallback (nor anything they call) writes or consults module-level mutable state, and the packer never writes into its argument (a cached output buffer makes two live results share memory; an in-place OR into a slice of the source destroys the tensor being packed)",
     "C04.R6": "router: define().impl forwards *args, **kwargs to quanto_ext then quanto_py",
     "C04.R7": "every unpack registration passes (t, bits) in order",
 }
@@ -31,6 +32,7 @@ def run(chk):
     up = up_mi.defs["unpack"]
     tparam, bparam = positional_params(pw)[:2]
     uparam, ubits = positional_params(up)[:2]
+    pure_packing(chk, [(mp, pw, "pack_weights"), (up_mi, up, "unpack (python)")])
     # ---- R1 field tables
     tables = {}
     for bits in (2, 4):
@@ -158,6 +160,36 @@ def _contiguity_guard(chk, path, rel, site):
     guarded = bool(_re.search(r"is_contiguous\s*\(|\.contiguous\s*\(", src_))
     chk.require("C04.R1", site, (not raw) or guarded, f"{rel}: raw storage access = {raw}, contiguity checked or enforced = {guarded}", rel, "raw storage read without a contiguity guard",
                 "a non-contiguous byte tensor (x.t(), x[:, 2:7], x[::3]) given to the compiled kernel: bytes are read in storage order, the result differs from the python fallback")
+
+
+def pure_packing(chk, targets):
+    from ..core import U
+    from ..effects import EffectGraph
+    g = EffectGraph(chk.repo)
+    n = 0
+    for mi, fn, name in targets:
+        if id(fn) not in g.fns:
+            chk.unknown("C04.R7", f"{mi.rel}:{fn.lineno}", f"{name}: not in the effect graph")
+            continue
+        n += 1
+        root = g.info(fn)
+        ext = list(g.external_effects(root, set()))
+        writes = [(e, f) for e, f, chain in ext if any(r.startswith("global:") for r in e.roots)]
+        params = {a.arg for a in fn.args.args}
+        arg_writes = [(e, f) for e, f, chain in ext if f.fn is fn and any(r.startswith("param:") for r in e.roots) and e.kind in ("inplace", "substore", "augstore")] if ext and hasattr(ext[0][0], "kind") else []
+        reads_state = []
+        for f in g.reachable(root):
+            for nd in ast.walk(f.fn):
+                if isinstance(nd, ast.Name) and isinstance(nd.ctx, ast.Load):
+                    v = f.mi.defs.get(nd.id)
+                    if isinstance(v, (ast.Dict,)) or (isinstance(v, ast.Call) and U(v.func) in ("dict", "list", "set", "defaultdict", "OrderedDict")) or (isinstance(v, ast.List) and not v.elts):
+                        reads_state.append(nd.id)
+        bad = sorted({e.text for e, _ in writes} | set(reads_state))
+        chk.require("C04.R7", f"{mi.rel}:{fn.lineno}", not bad, f"{name}: no module-level mutable state involved ({bad})", name, "packing function uses module-level state",
+                    "two unpack results alive at once (one op on two packed tensors of the same shape): both are the same buffer, so `p2 - p1` is zero")
+        chk.require("C04.R7", f"{mi.rel}:{fn.lineno}", not arg_writes, f"{name}: never writes into its argument ({[e.text for e, _ in arg_writes][:3]})", name, "packing function writes into its argument",
+                    "bits=4 and an odd number of rows: the last incomplete block is OR-ed in place into a slice of the source, which no longer holds the values that were packed")
+    chk.floor("C04.R7", n, 2, "packing functions checked for purity")
 
 
 def packed_tensor_rules(chk):
